@@ -370,15 +370,17 @@ OptionContext& OptionContext::add(const OptionContext& other) {
 void OptionContext::insertOption(size_t groupId, const SharedOptPtr& opt) {
 	const string& l = opt->name();
 	key_type k(options_.size());
+	std::string shortName;
 	if (opt->alias()) {
 		char sName[2] = {'-', opt->alias()};
-		std::string shortName(sName, 2);
+		shortName.assign(sName, 2);
 		if (!index_.insert(Name2Key::value_type(shortName, k)).second) {
 			throw DuplicateOption(caption(), l);
 		}
 	}
 	if (!l.empty()) {
 		if (!index_.insert(Name2Key::value_type(l, k)).second) {
+			if (!shortName.empty()) { index_.erase(shortName); } // refused: do not leave the alias key behind
 			throw DuplicateOption(caption(), l);
 		}
 	}
